@@ -307,9 +307,10 @@ fn run_case(case: &Case) -> Verdict {
         let aliased = canonical != spelled;
         let canon_op = with_paths(op, &canonical);
         let op = if aliased {
-            for (c, sp) in canonical.iter().zip(spelled.iter()) {
+            for (j, (c, sp)) in canonical.iter().zip(spelled.iter()).enumerate() {
                 if c != sp {
-                    world.arg_rewrite.push((c.clone(), sp.clone()));
+                    let occurrence = canonical[..j].iter().filter(|x| *x == c).count();
+                    world.arg_rewrite.push((c.clone(), sp.clone(), occurrence));
                 }
             }
             sim::with_core(|c| c.probe("path-alias-spelling"));
